@@ -283,7 +283,7 @@ func ruleProgress(c *Ctx) *RuleResult {
 			return false
 		}
 		if rt := fn.Signature.Recv(); rt != nil {
-			if pt, ok := rt.Type().(*types.Pointer); ok && types.Identical(pt.Elem(), c.A.LexerT) {
+			if pt, ok := rt.Type().(*types.Pointer); ok && inFam(c.A.LexerFam, pt.Elem()) {
 				return sc == next
 			}
 		}
@@ -668,7 +668,7 @@ func ruleLexerBack(c *Ctx) *RuleResult {
 					continue
 				}
 				pt, ok := fa.X.Type().(*types.Pointer)
-				if !ok || !types.Identical(pt.Elem(), c.A.LexerT) {
+				if !ok || !inFam(c.A.LexerFam, pt.Elem()) {
 					continue
 				}
 				fnm := fieldName(fa.X.Type(), fa.Field)
